@@ -1783,6 +1783,16 @@ def const_bytes(ex, st, v):
     raise Inconclusive('not a constant-length byte array: %r' % (v,))
 
 
+@pattern(r'^<impl \[u8\]>::strip_prefix(::<.*>)?$|^core::slice::<impl \[u8\]>::strip_prefix(::<.*>)?$')
+def m_bytes_strip_prefix(ex, st, args, dty, canon):
+    ln, bs = bstr_of(ex, st, args[0])
+    nd = const_bytes(ex, st, args[1])
+    k, n = len(nd), len(bs)
+    hit = z3.And(ln >= k, *[bs[i] == nd[i] for i in range(k)]) if k <= n else z3.BoolVal(False)
+    rest = Obj('bstr', (ln - k, (tuple(bs[k:]) + tuple(z3.IntVal(0) for _ in range(k)))[:n]))
+    return models.sym_enum(z3.If(hit, I(1), I(0)), {1: [rest], 0: []}, 'Option')
+
+
 @pattern(r'^<impl \[u8\]>::(starts_with|ends_with)$|^core::slice::<impl \[u8\]>::(starts_with|ends_with)$')
 def m_bytes_starts_with(ex, st, args, dty, canon):
     ln, bs = bstr_of(ex, st, args[0])
